@@ -168,7 +168,11 @@ def dedupe_keys(heap):
     return out
 
 
-RUN_TIMEOUT = 300
+def run_timeout():
+    import os
+    return 40 if os.environ.get('VERIF_RUNNING_TIER', 'quick') == 'quick' else 400
+
+
 MAX_TIMEOUTS = 3
 TIMEOUTS = [0]
 
@@ -183,7 +187,7 @@ def _alarm(_s, _f):
 
 def run_impl(obj, cfg):
     """-> (text | 'EXC <type>', [warning messages]); 'EXC RunTimeout' when the call does not return within
-    RUN_TIMEOUT seconds; after MAX_TIMEOUTS such calls nothing more is printed ('EXC skipped')"""
+    run_timeout() seconds; after MAX_TIMEOUTS such calls nothing more is printed ('EXC skipped')"""
     import signal
     import threading
     from prettyprinter import pformat
@@ -194,7 +198,7 @@ def run_impl(obj, cfg):
         warnings.simplefilter('always')
         if use_alarm:
             old = signal.signal(signal.SIGALRM, _alarm)
-            signal.setitimer(signal.ITIMER_REAL, RUN_TIMEOUT)
+            signal.setitimer(signal.ITIMER_REAL, run_timeout())
         try:
             out = pformat(obj, **cfg)
         except Exception as e:
@@ -272,6 +276,12 @@ def unfold(o, ancestors, failing=None):
         return Marker(marker_text(o))
     if failing is not None and any(o is f for f in failing):
         return Marker(safe_repr(o))
+    from prettyprinter.prettyprinter import _CommentedValue, _TrailingCommentedValue
+    if isinstance(o, (_CommentedValue, _TrailingCommentedValue)):
+        # comment wrappers are not containers: same ancestors, same wrapper around the copy
+        from prettyprinter import comment, trailing_comment
+        inner = unfold(o.value, ancestors, failing)
+        return (comment if isinstance(o, _CommentedValue) else trailing_comment)(inner, o.comment)
     anc = ancestors + [o]
     if type(o) is list:
         return [unfold(x, anc, failing) for x in o]
